@@ -721,11 +721,53 @@ func c07Gen(root *common.Rand, i int) c07Case {
 	return c07GenConc(r)
 }
 
+// c07Pool runs cases i = start..n-1 on a few workers (each case has its own
+// router and clock) and emits them in index order.
+func c07Pool(n, start int, gen func(i int) c07Case, out *lineOut) {
+	const workers = 4
+	type res struct {
+		i int
+		c c07Case
+	}
+	jobs := make(chan int)
+	results := make(chan res, workers)
+	for w := 0; w < workers; w++ {
+		go func() {
+			for i := range jobs {
+				c := gen(i)
+				c07Run(&c)
+				results <- res{i, c}
+			}
+		}()
+	}
+	go func() {
+		for i := start; i < n; i++ {
+			jobs <- i
+		}
+		close(jobs)
+	}()
+	pending := map[int]c07Case{}
+	next := start
+	for got := 0; got < n-start; got++ {
+		r := <-results
+		pending[r.i] = r.c
+		for {
+			c, ok := pending[next]
+			if !ok {
+				break
+			}
+			out.Emit(c)
+			delete(pending, next)
+			next++
+		}
+	}
+}
+
 func init() {
 	subcmds["c07"] = func(seed uint64, n int, start int, out *lineOut, replay string) {
 		if replay != "" {
 			lines := common.ReadLines(replay)
-			for i := start; i < len(lines); i++ {
+			c07Pool(len(lines), start, func(i int) c07Case {
 				var c c07Case
 				if err := json.Unmarshal(lines[i], &c); err != nil {
 					common.Fatalf("bad replay case: %v", err)
@@ -741,16 +783,11 @@ func init() {
 						c = c07Gen(common.NewRand(c.Seed), c.Idx)
 					}
 				}
-				c07Run(&c)
-				out.Emit(c)
-			}
+				return c
+			}, out)
 			return
 		}
 		root := common.NewRand(seed)
-		for i := start; i < n; i++ {
-			c := c07Gen(root, i)
-			c07Run(&c)
-			out.Emit(c)
-		}
+		c07Pool(n, start, func(i int) c07Case { return c07Gen(root, i) }, out)
 	}
 }
